@@ -69,7 +69,7 @@ def art(rng, n):
     if n < 2 or rng.random() >= 0.2:
         return b
     tail = rng.choice([b"\x90\x00", b"\x90\x00", b"\x6a\x87", b"\x00\x00", b"\xff\xff",
-                       b"\x80\x60", b"\x0a", b"\x00"])
+                       b"\x80\x60", b"\x0a", b"\x00", b"\x04\x04", b"\x04", b"\x02\x02"])
     if rng.random() < 0.7:
         return b[:n - len(tail)] + tail if n >= len(tail) else b
     return (tail + b)[:n]
